@@ -1,4 +1,5 @@
 import MJ.Model.Store
+import MJ.Model.MemoConc
 /-! Line driver for C15: a history of environment operations (see `harness/src/bin/c15.rs` for the
 token syntax) → per step: the operation's result and, for every live environment, the model's
 answer to `get_template` for every name (source and load-time configuration of the stored
@@ -316,6 +317,42 @@ def runForeign (case : String) : String :=
     (s', acc.2 ++ [r])) (s, [])
   " / ".intercalate ([vMain] ++ news ++ [sameThread] ++ conc0 ++ concK)
 
+/-! ### gated-loader stream: one schedule of `MJ.MemoConc` per case `cc:<others>:<w|n>` -/
+
+open MJ.MemoConc in
+def ccLoader (p : Nat) (n : Name) : LoadRes := if n == 0 || n == 1 then .src (10 * p + n) else .missing
+
+def ccText (r : Res) : String :=
+  match r with
+  | .found (src, _) => if src == 9 then "B9" else s!"P{src / 10}N{src % 10}"
+  | .notFound => "NF"
+  | _ => "?"
+
+open MJ.MemoConc in
+def runCc (case : String) : String :=
+  let f := case.splitOn ":"
+  let others := ((f[1]?).getD "").toList
+  let world := (f[2]?).getD "n" == "w"
+  let c : LtCfg → Source → Bool := fun _ _ => true
+  let s : Store := { loader := some (ccLoader 1), cfg := LtCfg.default, borrowed := [(2, (9, LtCfg.default))], owned := [] }
+  let nameOf (ch : Char) : Name := if ch == 's' then 0 else if ch == 'd' then 1 else 2
+  let todos := [0] :: others.map (fun ch => [nameOf ch])
+  let k := others.length
+  -- A: acquire, look (miss) — it is now inside the creator
+  let σ := (Sys.start s todos).run c [.thread 0, .thread 0]
+  -- every other thread gets one step: answered from the borrowed tier, or blocked at the mutex
+  let σ := σ.run c ((List.range k).map (fun i => Ev.thread (i + 1)))
+  let early := (List.range k).map (fun i => match σ.thr[i + 1]? with | some t => !t.done.isEmpty | none => false)
+  let σ := if world then σ.run c [.world (ccLoader 2)] else σ
+  -- A: create + insert, release; then the others, one after the other
+  let σ := σ.run c [.thread 0, .thread 0]
+  let σ := σ.run c ((List.range k).flatMap (fun i => List.replicate 4 (Ev.thread (i + 1))))
+  let answers := σ.thr.map (fun t => match t.done with | [(_, r)] => ccText r | _ => "unfinished")
+  let earlyS := String.ofList (early.map (fun b => if b then '1' else '0'))
+  -- the creator runs inside the critical section: the loader is asked once per loader-backed name
+  let loads := if others.any (· == 'd') then "c0:1,c1:1" else "c0:1"
+  s!"{" / ".intercalate answers}\tearly={earlyS}\tloads={loads}"
+
 end C15Drive
 
 partial def loop (h : IO.FS.Stream) (out : IO.FS.Stream) (cmp : C15Drive.CmpTable) : IO Unit := do
@@ -330,6 +367,8 @@ partial def loop (h : IO.FS.Stream) (out : IO.FS.Stream) (cmp : C15Drive.CmpTabl
     let case := (line.splitOn "\t").head!
     if case.startsWith "fx:" then
       out.putStrLn s!"{case}\t{C15Drive.runForeign case}"
+    else if case.startsWith "cc:" then
+      out.putStrLn s!"{case}\t{C15Drive.runCc case}"
     else
       out.putStrLn s!"{case}\t{C15Drive.runCase cmp case}"
     loop h out cmp
